@@ -54,6 +54,17 @@ func (p *Program) CondOf(v ssa.Value) Cond {
 			if constLike(c.X) && !constLike(c.Y) {
 				c = c.Flipped()
 			}
+			// an integer compared with 1 is a comparison with 0 in disguise:
+			// "x < 1" is "x <= 0", "x >= 1" is "x > 0" (for len/unsigned these
+			// then read as "x == 0" / "x != 0", see EdgeOrd)
+			if c.Y == "1" && isInteger(c.XV) {
+				switch c.Op {
+				case token.LSS:
+					c.Op, c.Y, c.YV = token.LEQ, "0", nil
+				case token.GEQ:
+					c.Op, c.Y, c.YV = token.GTR, "0", nil
+				}
+			}
 			// a loop index is always read on the left ("len(xs) > i" = "i < len(xs)")
 			if c.Y == "idx(range)" && c.X != "idx(range)" {
 				c = c.Flipped()
@@ -248,4 +259,13 @@ func (c Cond) WithY(isY func(desc string) bool) (Cond, bool) {
 		return c.Flipped(), true
 	}
 	return c, false
+}
+
+
+func isInteger(v ssa.Value) bool {
+	if v == nil {
+		return false
+	}
+	b, ok := v.Type().Underlying().(*types.Basic)
+	return ok && b.Info()&types.IsInteger != 0
 }
